@@ -211,8 +211,16 @@ func (i *interpreter) floatBits(v value) value {
 		if v.bits != "" {
 			return sym{k: ik, t: v.bits}
 		}
-		// fresh bit-vector constrained to denote v (any NaN payload for NaN).
+		// fresh bit-vector constrained to denote v (any NaN payload for NaN);
+		// one per distinct term, so equal terms have equal bits.
+		if i.ex.bitsOf == nil {
+			i.ex.bitsOf = map[string]string{}
+		}
+		if b, ok := i.ex.bitsOf[v.t]; ok {
+			return sym{k: ik, t: b}
+		}
 		b := i.ex.fresh(fmt.Sprintf("(_ BitVec %d)", w), "fb")
+		i.ex.bitsOf[v.t] = b
 		eb, sb := 11, 53
 		if w == 32 {
 			eb, sb = 8, 24
@@ -312,8 +320,14 @@ func (i *interpreter) symBinop(op token.Token, x, y value) value {
 		case token.AND_NOT:
 			return i.mkSym(k, app("bvand", tx, app("bvnot", ty)))
 		case token.EQL:
+			if tx == ty {
+				return true
+			}
 			return i.mkSym(types.Bool, app("=", tx, ty))
 		case token.NEQ:
+			if tx == ty {
+				return false
+			}
 			return i.mkSym(types.Bool, app("not", app("=", tx, ty)))
 		case token.LSS:
 			return i.mkSym(types.Bool, app(pick("bvslt", "bvult"), tx, ty))
